@@ -24,45 +24,37 @@ package rfc4757
 //@ define rc4_body(key, usage, c) := rc4stream(hmac(fid.crypto.md5.New, rc4_k2(key, usage), seqtrunc(c, 16)), seqsub(c, 16, len(c)))
 //@ func crypto/rfc4757.DecryptMessage(key, data, usage, export, e) (pt, err)
 //@   pure
-//@   trusted_frame returned slices are not tracked as fresh; in-place append into spare capacity cannot be excluded
 //@   requires tagof(e) == typeid("crypto.RC4HMAC")
 //@   ensures err != nil ==> len(pt) == 0
 //@   ensures err == nil ==> len(data) >= 24 && seqtrunc(bytes(data), 16) == hmac(fid.crypto.md5.New, rc4_k2(bytes(key), usage), rc4_body(bytes(key), usage, bytes(data)))
 //@   ensures err == nil ==> bytes(pt) == seqsub(rc4_body(bytes(key), usage, bytes(data)), 8, len(data) - 16)
 //@ func crypto/rfc4757.EncryptMessage(key, data, usage, export, e) (ct, err)
 //@   pure
-//@   trusted_frame returned slices are not tracked as fresh; in-place append into spare capacity cannot be excluded
 //@   requires tagof(e) == typeid("crypto.RC4HMAC")
 //@   ensures err == nil ==> len(lastRandom) == 8 && bytes(ct) == enc_4757(old(bytes(key)), usage, seqcat(lastRandom, old(bytes(data))))
 //@ func crypto/rfc4757.deriveKeys(key, checksum, usage, export) (k1, k2, k3)
 //@   pure
-//@   trusted_frame returned slices are not tracked as fresh
 //@   ensures k1 == key && bytes(k2) == rc4_k2(bytes(key), usage) && bytes(k3) == hmac(fid.crypto.md5.New, rc4_k2(bytes(key), usage), bytes(checksum))
 //@ func crypto/rfc4757.HMAC(key, data) (r)
 //@   pure
-//@   trusted_frame returned slices are not tracked as fresh; in-place append into spare capacity cannot be excluded
 //@   ensures len(r) == 16 && fresh(r) && cap(r) == 16
 //@   ensures bytes(r) == hmac(fid.crypto.md5.New, bytes(key), bytes(data))
 //@ func crypto/rfc4757.UsageToMSMsgType(usage) (r)
 //@   pure
-//@   trusted_frame returned slices are not tracked as fresh; in-place append into spare capacity cannot be excluded
 //@   ensures len(r) == 4 && fresh(r) && cap(r) == 4
 //@   ensures bytes(r) == seqle32(ms_usage(usage))
 //@ func crypto/rfc4757.Checksum(key, usage, data) (r, err)
 //@   pure
-//@   trusted_frame returned slices are not tracked as fresh; in-place append into spare capacity cannot be excluded
 //@   ensures err == nil ==> len(r) == 16
 //@   ensures err == nil ==> bytes(r) == rc4_cksum(bytes(key), usage, bytes(data))
 //@ func crypto/rfc4757.VerifyIntegrity(key, pt, data, e) (ok)
 //@   pure
 //@   requires tagof(e) == typeid("crypto.RC4HMAC")
-//@   trusted_frame returned slices are not tracked as fresh; in-place append into spare capacity cannot be excluded
 //@   ensures ok ==> len(data) >= 16 && seqtrunc(bytes(data), 16) == hmac(fid.crypto.md5.New, bytes(key), bytes(pt))
 
 // RFC 4757 2 (property C08): the key is the MD4 digest of the UTF-16LE encoding of the password.
 //@ func crypto/rfc4757.StringToKey(secret) (r, err)
 //@   pure
-//@   trusted_frame returned slices are not tracked as fresh
 //@   seq_extensionality
 //@   ensures err == nil ==> bytes(r) == hashf(fid.golang.org.x.crypto.md4.New, utf16le(bytes(secret)))
 //@   loop 1 invariant -1 <= rangeindex && rangeindex < len(u) && len(b) == 2 * len(u)
